@@ -5,9 +5,13 @@
 (*  stays inside its object, for ALL N, d, skip.                           *)
 (*  The finite part (shape of each site) is decided by vm_compute over the *)
 (*  table; the general part comes from Mat_EigSelect.                      *)
-(*  On a tree with `segment(skip, skip + target_dimension)` (defect F7)    *)
-(*  `eig_table_smallest_shapes` does not compute to true and this file     *)
-(*  stops compiling at that lemma; the largest-eigenvalue part is before.  *)
+(*  The eigenvalue slice of the smallest-eigenvalue dense sites may have   *)
+(*  either the shipped form `segment(skip, skip + target_dimension)`       *)
+(*  (defect F7, a KNOWN FINDING that cannot be repaired because a unit     *)
+(*  test pins the returned length) or the repaired form `segment(skip,     *)
+(*  target_dimension)`; `eig_segment_table` proves, for whichever is       *)
+(*  present, the refutation (with witness) or the in-range theorem.  Any   *)
+(*  OTHER shape makes `eig_table_smallest_shapes` fail to compile.         *)
 (* ====================================================================== *)
 Require Import Arith Lia List Bool String.
 From TK Require Import Mat_EigSelect EigSelect.
@@ -30,9 +34,17 @@ Definition smallest_ok_b (b : branch) : bool :=
   else
     shape_left_right (b_cols b) &&
     match b_base b with
-    | BaseN => shape_segment (b_vals b)
+    | BaseN => shape_segment (b_vals b) || shape_segment_shipped (b_vals b)
     | BaseExpr e => is_lin e (1, 1, 0) && shape_all (b_vals b)
     end.
+
+(* is the F7 form present at some dense smallest-eigenvalue site? *)
+Definition f7_site (b : branch) : bool :=
+  negb (b_largest b) && match b_base b with BaseN => shape_segment_shipped (b_vals b) | _ => false end.
+Definition f7_present : bool := existsb f7_site eig_table.
+Definition smallest_repaired_b (b : branch) : bool :=
+  if b_largest b then true
+  else match b_base b with BaseN => shape_segment (b_vals b) | _ => true end.
 
 Definition is_site (fn : string) (largest : bool) (b : branch) : bool :=
   String.eqb (b_fn b) fn && Bool.eqb (b_largest b) largest.
@@ -78,22 +90,83 @@ Proof.
     + rewrite (sel_all_ok d 0 d _ Hv). f_equal. f_equal. lia.
 Qed.
 
-(* --- smallest-eigenvalue sites (used by C08, C09, C10; refuted on the shipped tree, F7) --- *)
+(* --- smallest-eigenvalue sites (used by C08, C09, C10) --- *)
 Lemma eig_table_smallest_shapes : forallb smallest_ok_b eig_table = true.
 Proof. vm_compute. reflexivity. Qed.
 
-Theorem select_smallest :
+(* eigenVECTORS: columns skip .. skip+d-1, inside the matrix, on every tree *)
+Theorem select_smallest_cols :
   forall b, In b eig_table -> b_largest b = false -> b_base b = BaseN ->
   forall N d skip, d + skip <= N ->
-    eval_ops d skip N (b_cols b) = Some (skip, d) /\
-    eval_ops d skip N (b_vals b) = Some (skip, d).
+    eval_ops d skip N (b_cols b) = Some (skip, d).
 Proof.
   intros b Hb Hl HB N d skip Hd.
   pose proof eig_table_smallest_shapes as H. rewrite forallb_forall in H.
   specialize (H b Hb). unfold smallest_ok_b in H. rewrite Hl, HB in H.
-  apply andb_true_iff in H. destruct H as [Hc Hv]. split.
-  - apply sel_left_right_ok; assumption.
-  - apply sel_segment_ok; assumption.
+  apply andb_true_iff in H. destruct H as [Hc Hv].
+  apply sel_left_right_ok; assumption.
+Qed.
+
+(* eigenVALUES: the slice starts at skip; it has d entries (repaired) or d+skip entries and
+   may leave the vector (shipped) *)
+Theorem select_smallest_vals :
+  forall b, In b eig_table -> b_largest b = false -> b_base b = BaseN ->
+  forall N d skip, d + skip <= N ->
+    eval_ops d skip N (b_vals b) = Some (skip, d) \/
+    eval_ops d skip N (b_vals b) =
+      (if Nat.leb (skip + (d + skip)) N then Some (skip, d + skip) else None).
+Proof.
+  intros b Hb Hl HB N d skip Hd.
+  pose proof eig_table_smallest_shapes as H. rewrite forallb_forall in H.
+  specialize (H b Hb). unfold smallest_ok_b in H. rewrite Hl, HB in H.
+  apply andb_true_iff in H. destruct H as [Hc Hv].
+  apply orb_true_iff in Hv. destruct Hv as [Hv|Hv].
+  - left. apply sel_segment_ok; assumption.
+  - right. apply sel_segment_shipped_view; assumption.
+Qed.
+
+Lemma f7_site_refuted b :
+  f7_site b = true ->
+  exists N d skip, d + skip <= N /\ 1 <= d /\ eval_ops d skip N (b_vals b) = None.
+Proof.
+  unfold f7_site. intros H. apply andb_true_iff in H. destruct H as [_ H].
+  destruct (b_base b); [|discriminate].
+  exists 5, 4, 1. split; [lia|]. split; [lia|].
+  rewrite (sel_segment_shipped_view 4 1 5 _ H). reflexivity.
+Qed.
+
+(* Whichever form the tree being checked has:
+   LEFT  (shipped, F7): some dense smallest-eigenvalue site reads OUTSIDE the eigenvalue
+         vector for some N >= d + skip  (witness N = 5, d = 4, skip = 1);
+   RIGHT (repaired): every such site returns exactly entries skip .. skip+d-1, in range. *)
+Theorem eig_segment_table :
+  (f7_present = true /\
+   exists b, In b eig_table /\ b_largest b = false /\
+     exists N d skip, d + skip <= N /\ 1 <= d /\ eval_ops d skip N (b_vals b) = None)
+  \/
+  (f7_present = false /\
+   forall b, In b eig_table -> b_largest b = false -> b_base b = BaseN ->
+   forall N d skip, d + skip <= N -> eval_ops d skip N (b_vals b) = Some (skip, d)).
+Proof.
+  destruct f7_present eqn:E.
+  - left. split; [reflexivity|]. unfold f7_present in E.
+    apply existsb_exists in E. destruct E as [b [Hb Hf]].
+    exists b. split; [assumption|]. split.
+    + unfold f7_site in Hf. apply andb_true_iff in Hf. destruct Hf as [Hf _].
+      destruct (b_largest b); [discriminate|reflexivity].
+    + apply f7_site_refuted. assumption.
+  - right. split; [reflexivity|].
+    intros b Hb Hl HB N d skip Hd.
+    pose proof eig_table_smallest_shapes as K. rewrite forallb_forall in K.
+    specialize (K b Hb). unfold smallest_ok_b in K. rewrite Hl, HB in K.
+    apply andb_true_iff in K. destruct K as [_ Kv].
+    apply orb_true_iff in Kv. destruct Kv as [Kv|Kv].
+    + apply sel_segment_ok; assumption.
+    + exfalso.
+      assert (Ef : f7_present = true).
+      { unfold f7_present. apply existsb_exists. exists b. split; [assumption|].
+        unfold f7_site. rewrite Hl, HB. cbn [negb andb]. exact Kv. }
+      rewrite Ef in E. discriminate.
 Qed.
 
 (* randomized "smallest" site: eigenvectors skip .. skip+d-1 of the d+skip computed ones *)
